@@ -311,3 +311,9 @@ LEVEL_NOTE = ('Partial by nature: reaping of the worker OS process, pipe closure
               'and pickling are observed by the correspondence (serial-vs-parallel runs and a shutdown sweep with real '
               'multiprocessing), not proved. Trusted: Lean kernel + standard axioms; scheduler and protocol models.')
 TECHNIQUE = 'Lean 4 proof of the command protocol + engine discipline; serial/parallel differential runs'
+
+
+# an adaptive timestep inside a parallel worker (calculate_timestep travels through the pipe)
+from harness import adaptpar as _ap                     # noqa: E402
+from harness.mixins import add_family as _add_family    # noqa: E402
+_add_family(globals(), _ap, 'adaptpar', _ap.oracle, share=0.1)
